@@ -15,7 +15,7 @@ def case_strategy(tier, kinds, dims=(1, 2, 2, 2, 3), kmax=5, **kw):
         dc = draw(specs.domain_case(tier, kinds=kinds, dims=dims, **kw))
         fv = rg.free_vars(dc["E"])
         names = set(dc["pvars"])
-        ks = (0, 1, 1, 2, 3, 5) if not fv else (1, 1, 2, 3, 5)
+        ks = (0, 1, 2, 2, 3, 5) if not fv else (1, 2, 2, 3, 5)
         extra_unused = draw(st.integers(0, 3)) == 0
         if not extra_unused:
             names = set(fv)
